@@ -703,6 +703,41 @@ Proof.
   perm_count.
 Qed.
 
+Lemma remove_perm' (xs : list N) i : (i < length xs)%nat -> Permutation xs (nth i xs 0 :: sp_remove i xs).
+Proof.
+  intros Hi. unfold sp_remove. rewrite <- (firstn_skipn i xs) at 1.
+  rewrite (skipn_nth_cons 0 xs i Hi). symmetry. apply Permutation_middle.
+Qed.
+Lemma swap_temp_own st nx v1 i v2 j r D L :
+  sp_swap_temp c st nx v1 i v2 j = Some r ->
+  Permutation (created c nx) (vis st ++ D ++ L) ->
+  Permutation (created c (s_nx r)) (vis (s_st r) ++ (D ++ drops (s_evs r)) ++ (L ++ [])).
+Proof.
+  intros Hr Hinv. unfold sp_swap_temp in Hr.
+  destruct (Nat.eqb_spec v1 v2) as [|Hne]; [discriminate|].
+  destruct (get_a v1 st) as [a|] eqn:Hga; [|discriminate].
+  destruct (get_a v2 st) as [b|] eqn:Hgb; [|discriminate].
+  destruct (N.ltb_spec i (N.of_nat (length (a_xs a)))) as [Hi|Hi]; cbn [negb orb] in Hr.
+  2:{ injection Hr as <-. cbn [panic_res s_nx s_st s_evs drops flat_map]. perm_count. }
+  destruct (N.ltb_spec j (N.of_nat (length (a_xs b)))) as [Hj|Hj]; cbn [negb] in Hr.
+  2:{ injection Hr as <-. cbn [panic_res s_nx s_st s_evs drops flat_map]. perm_count. }
+  injection Hr as <-. cbn [ok_res s_nx s_st s_evs]. unfold drop_ev. rewrite Hdg. cbn [drops flat_map app].
+  set (x := nth (N.to_nat i) (a_xs a) 0). set (y := nth (N.to_nat j) (a_xs b) 0).
+  set (st1 := set_a v1 (Some (with_xs a (sp_remove (N.to_nat i) (a_xs a)))) st).
+  assert (Hgb1 : get_a v2 st1 = Some b).
+  { rewrite WorldCore.get_a_slot. unfold st1, set_a. rewrite WorldCore.slot_set_nth.
+    destruct (Nat.eqb_spec v2 v1); [congruence|]. rewrite <- WorldCore.get_a_slot. exact Hgb. }
+  pose proof (vis_get_any st v1) as Hv1. rewrite Hga in Hv1. cbn [slot_xs] in Hv1.
+  pose proof (vis_set_any st v1 (Some (with_xs a (sp_remove (N.to_nat i) (a_xs a))))) as H1. fold st1 in H1.
+  cbn [slot_xs with_xs a_xs] in H1.
+  pose proof (vis_get_any st1 v2) as Hv2. rewrite Hgb1 in Hv2. cbn [slot_xs] in Hv2.
+  pose proof (vis_set_any st1 v2 (Some (with_xs b (sp_upd (N.to_nat j) x (a_xs b))))) as H2.
+  cbn [slot_xs with_xs a_xs] in H2.
+  pose proof (remove_perm' (a_xs a) (N.to_nat i) ltac:(lia)) as H3. fold x in H3.
+  pose proof (upd_perm (a_xs b) (N.to_nat j) x ltac:(lia)) as H4. fold y in H4.
+  perm_count.
+Qed.
+
 Lemma offer_lazy_own st nx v idx src sidx r D L :
   1 <= nx -> sp_offer_lazy c st nx v idx src sidx = Some r ->
   Permutation (created c nx) (vis st ++ D ++ L) ->
@@ -876,7 +911,7 @@ Proof.
   - (* OWrite *)
     exact (write_own st nx v idx r D L Hnx Hr Hinv).
   - (* OSwap *)
-    destruct (pr =? 0); [|discriminate]. exact (swap_own st nx v1 i v2 j r D L Hr Hinv).
+    destruct (pr =? 0); [exact (swap_own st nx v1 i v2 j r D L Hr Hinv)|exact (swap_temp_own st nx v1 i v2 j r D L Hr Hinv)].
   - (* OLazyDown: the clone is created and destroyed by the caller *)
     unfold sp_lazy_down in Hr. destruct (get_a v st) as [av|]; [|discriminate].
     destruct (idx <? N.of_nat (length (a_xs av))); injection Hr as <-;
